@@ -111,6 +111,14 @@ func scenarios(prop, tier string) []*Scenario {
 			&Scenario{Name: "genesis/prune-depth-4", Cfg: hdr.Config{MaxBranchDepth: 2}, N: pick(6, 7), M: 2,
 				Maint: []hdr.Op{{K: "cleand", D: 4}}, Slots: []string{"a", "H"}},
 		)
+		// stale side branches (tip deeper than the prune depth) with live branches forking from them:
+		// built while the chain is short, then the best chain grows by several headers at once
+		r = append(r,
+			&Scenario{Name: "genesis/grow+growside-prune-depth-3", Cfg: hdr.Config{MaxBranchDepth: 2}, N: pick(5, 6), M: pick(1, 2), Grows: 1, GrowBy: 5, GrowSides: 1, GrowSideBy: 3,
+				Maint: []hdr.Op{{K: "cleand", D: 3}}, Slots: []string{"a", "H"}},
+			&Scenario{Name: "genesis/grow+growside-prune-depth-2", Cfg: hdr.Config{MaxBranchDepth: 1}, N: pick(5, 6), M: pick(1, 2), Grows: 1, GrowBy: 4, GrowSides: 1, GrowSideBy: 3,
+				Maint: []hdr.Op{{K: "cleand", D: 2}}, Slots: []string{"a", "H"}},
+		)
 		for _, base := range bases(quick) {
 			r = append(r, &Scenario{Name: baseName(base), Cfg: hdr.Config{MaxBranchDepth: 144, Base: base}, N: pick(3, 4), M: 2,
 				Maint: []hdr.Op{opClean}, Attach: []int{0, -1, -2}, Slots: []string{"a", "H"}})
